@@ -99,6 +99,13 @@ func checkC08WhereKept(c *Ctx) {
 				hasMarker = true
 			}
 		}
+		// a regroup rewrites the entry it has just read, keeping every expression (clause.And(old...))
+		if w.key == "WHERE" && w.kind == "store" {
+			if st, hasAnd := findRegroup(p, root); st != nil && ast.Node(st) == w.node && hasAnd {
+				r.OK(root.Name(), desc, w.node.Pos(), "regroup: the entry read is stored back with all its expressions wrapped into one AND unit")
+				continue
+			}
+		}
 		r.Check(w.key != "" && hasWhere && hasMarker, root.Name(), desc, w.node.Pos(), "WHERE entry and marker written together", "the WHERE clause (or the soft-delete marker) of a statement is replaced or deleted by key without the other half: the filter the soft-delete modifier added is dropped while the marker that suppresses re-adding it stays (or the other way round) - later finishers on this statement see soft-deleted rows")
 	}
 }
